@@ -117,6 +117,25 @@ def check_concurrent(case):
     return None, info
 
 
+def exact_size_cases():
+    """Sessions whose OPEN / WRTE payloads are exactly k*64 KiB (+-1) bytes long."""
+    out = []
+    path, mode = "/p", 0o100770
+    slen = len(("%s,%d" % (path, mode)).encode())
+    for api in ("sync", "async"):
+        for k in (1, 2, 3):
+            for delta in (-1, 0, 1):
+                cmd = "x" * (65536 * k - 7 + delta)
+                out.append({"api": api, "device": {"maxdata": 1048576, "services": {}}, "transport": {"flavour": "raises"}, "connect": {},
+                            "ops": [{"op": "shell", "cmd": cmd, "decode": False}, {"op": "stat", "path": "/after"}]})
+                # one WRTE carrying SEND + k DATA records + DONE of exactly k*64 KiB (+delta) bytes
+                n = 65536 * k + delta - (8 + slen) - 8 * k - 8
+                out.append({"api": api, "device": {"maxdata": 1048576, "services": {}}, "transport": {"flavour": "raises"}, "connect": {},
+                            "ops": [{"op": "push", "src": {"kind": "bytesio", "content": {"pat": b"\x5a\xa5", "n": n}}, "path": path, "mode": mode, "mtime": 3},
+                                    {"op": "stat", "path": "/after"}]})
+    return out
+
+
 def big_cases():
     """>= 16.9 MiB of 0xFF: the byte sum passes 2^32 (checksum wrap)."""
     n = 2 ** 32 // 255 + 4096
@@ -137,6 +156,8 @@ def run(tier, seed):
     col.merge(harness.corpus_part(ID, "stream", check_stream))
     col.merge(harness.hypothesis_part("direct", direct_cases(), check_direct, 8000 if quick else 200000, seed, shrink=not quick))
     col.merge(harness.hypothesis_part("stream", stream_cases(), check_stream, 2500 if quick else 60000, seed, shrink=not quick))
+    col.merge(harness.enumeration_part("stream", lambda sh, n: [c for i, c in enumerate(exact_size_cases()) if i % n == sh], check_stream,
+                                       hash_of=lambda c: {"api": c["api"], "op": c["ops"][0]["op"], "n": len(c["ops"][0].get("cmd", "")) or c["ops"][0]["src"]["content"]["n"]}))
     from . import c06
     col.merge(harness.hypothesis_part("concurrent", c06.workloads(), check_concurrent, 2500 if quick else 60000, seed, shrink=not quick))
     if not quick:
